@@ -266,6 +266,23 @@ pub fn check_lattice(world: &World, t: &Tok, lat: &LatticeObs, m: &Matrix, path_
             }
         }
         rep.count("results_compared_with_chain", 1);
+    } else {
+        // path-rewrite plugins only merge neighbours: every reported morpheme ends where a node of the
+        // chain ends, and its cumulative cost is the sum recomputed along the path up to that node
+        let obs = observe(&t.list);
+        let by_end: HashMap<usize, i64> = path.iter().zip(prefix.iter()).map(|((b, _), c)| (*b, *c)).collect();
+        if obs.len() == t.nranges.len() {
+            for (k, o) in obs.iter().enumerate() {
+                if let Some(exp) = by_end.get(&t.nranges[k].1) {
+                    if o.total_cost as i64 != *exp {
+                        return Err(("cumulative_cost".into(), format!(
+                            "morpheme {} ({:?}, after path rewriting) reports cumulative cost {} but the sum recomputed along the path up to its end is {}",
+                            k, o.surface, o.total_cost, exp)));
+                    }
+                    rep.count("rewritten_results_cost_checked", 1);
+                }
+            }
+        }
     }
     Ok(d.eos_max != d.eos_min)
 }
@@ -331,6 +348,7 @@ pub fn run(ctx: &Ctx, rep: &mut Report) {
                 continue;
             }
             let lat = observe_lattice(&t);
+            t.peek_ranges();
             if t.list.collect_results(&mut t.tok).is_err() {
                 continue;
             }
